@@ -9,6 +9,11 @@ CHECKS = {
    technique="Coq proof by induction over the row list (unbounded) + extracted-model vs real iterator differential check + Coq-extracted exact oracle",
    design="Part II C08"),
 }
+CHECKS["C02"] = dict(
+   text="Theorems (Coq, unbounded): from any state satisfying Inv, insert_db of ANY canonical set of version ranges never errs, each DELETE hits exactly one row, the persisted gap rows stay literally equal to the in-memory needed set (disjoint, non-adjacent, inside 1..head-1) and needed' = (needed ∪ gap beyond old head) \\ inserted; Inv holds in every state reachable by insertions and partial-chunk insertions; generate_sync's per-actor output is the exact partition held/needed/partial(+exact missing seqs)/beyond. Model tied to the real BookedVersions/VersionsSnapshot/process_incomplete_version/generate_sync/from_conn on an in-memory migrated database by a step-by-step state diff; the Coq oracle state_ok (proved to imply Inv) also judges every implementation state incl. reload=live.",
+   note="Trusted: Coq kernel; hand transcription of compute_gaps_change/insert_db/insert_partial/generate_sync/from_conn and of the seq-row SQL (tied by differential testing); Lib/Ivl.v as model of rangemap (checked by the same diff); extraction+driver; harness. Not yet proved (only checked on implementation states by the oracle): from_conn(reload) = live state. v=0 / >=2^63 outside the quantifier.",
+   technique="Coq invariant proof by induction over operation sequences (unbounded) + differential check of every step against the real bookkeeping on SQLite + extracted oracle",
+   design="Part II C02")
 NA = {}
 ALL = ["C%02d" % i for i in range(1, 21)]
 def main():
